@@ -230,6 +230,19 @@ def run(chk):
                 chk.violation("C02.chunkpair", c, K.short(c), "a guard that `hdrs.TRANSFER_ENCODING in self.headers` satisfies on its own",
                               "__init__(): _update_transfer_encoding() is skipped for a body-less GET/HEAD/OPTIONS that carries the caller's `Transfer-Encoding: chunked` header: the header goes out but no `0\\r\\n\\r\\n` follows, and the server waits for a chunked body that never ends",
                               path_condition=norm.fmt_cnf(cl))
+    # once a request is built, chunk framing is a latch: compression (whose output length is unknown) forces it, and nothing may lower it again
+    # while the compressor stays configured - a Content-Length next to a compressed body declares the raw size over the deflated bytes
+    nlat = 0
+    for m in cr.methods.values():
+        for a in ast.walk(m.node):
+            if isinstance(a, ast.Assign) and any(norm.raw(t) == "self.chunked" for t in a.targets):
+                nlat += 1
+                if m.name == "__init__" or (isinstance(a.value, ast.Constant) and a.value.value is True):
+                    chk.ok("C02.chunkpair", a, f"{m.name}(): chunked is " + ("initialised from the caller's argument" if m.name == "__init__" else "only ever raised"))
+                else:
+                    chk.violation("C02.chunkpair", a, K.short(a), "self.chunked = True (or leave it alone)",
+                                  f"{m.name}() can lower `chunked` after the request was built: _update_content_encoding() raised it because the body is compressed on the fly, and with it lowered the replaced body goes out with `Content-Encoding: deflate` and `Content-Length: <raw size>` - the declared length is not the length of the bytes written (9000 declared, 95 sent; or bytes past the declared length)")
+    chk.expect_count("C02.chunkpair.latch", nlat, 3, "assignments to ClientRequest.chunked")
     # a caller-supplied `Transfer-Encoding: chunked` header switches the writer to chunk framing too
     te = [a for a in ast.walk(ute.node) if isinstance(a, ast.Assign) and norm.raw(a) == "self.chunked = True"]
     if te and any("chunked" in norm.fmt_cnf(PC.pc(a)) for a in te):
